@@ -1,5 +1,4 @@
 /-- translated from the source text of `fieldcompare/_field_data_comparison.py: FieldComparisonStatus.__bool__` -/
--- v0 = self
 def c11FcStatusBoolSrc : Fc.PyLite.Fn := {
   name := "FieldComparisonStatus.__bool__"
   params := ["v0"]
@@ -8,7 +7,6 @@ def c11FcStatusBoolSrc : Fc.PyLite.Fn := {
   ] }
 
 /-- translated from the source text of `fieldcompare/_field_data_comparison.py: FieldComparisonSuite.__bool__` -/
--- v0 = self
 def c11FcSuiteBoolSrc : Fc.PyLite.Fn := {
   name := "FieldComparisonSuite.__bool__"
   params := ["v0"]
@@ -20,7 +18,6 @@ def c11FcSuiteBoolSrc : Fc.PyLite.Fn := {
   ] }
 
 /-- translated from the source text of `fieldcompare/_field_data_comparison.py: FieldComparisonSuite.status` -/
--- v0 = self
 def c11FcSuiteStatusSrc : Fc.PyLite.Fn := {
   name := "FieldComparisonSuite.status"
   params := ["v0"]
